@@ -7,7 +7,7 @@ import NemoVerif.Lemmas.NumberedLines
 import NemoVerif.Lemmas.PreExpand
 namespace NemoVerif.TextLayout
 open NemoVerif.Layout
-open NemoVerif.NumberedLines (strip isPyWs)
+open NemoVerif.NumberedLines (strip lstrip rstrip isPyWs)
 
 /-- glue: result of a prefix scan followed by the scan of the rest -/
 def glue (o : Oracle) (s : Str) : Except Err (List Piece × Bool × Nat) → Except Err (List Piece)
@@ -558,5 +558,326 @@ theorem toyOracle_scaleOK (k : Nat) (text : Str) : ScaleOK k toyOracle toyOracle
           split at h
           · rename_i heq; simp at heq; exact absurd heq.1 ha
           · simp at h
+
+/-! ### scaling raw lines through the `...` pre-parsing expansion -/
+
+/-- scaling distributes over lines: the text of a line without line breaks, then the rest in "after a line break" mode -/
+theorem scaleText_line (k : Nat) : ∀ (b : Bool) (l t : Str), (∀ ch ∈ l, ch ≠ '\n') →
+    scaleText k b (l ++ '\n' :: t) = scaleText k b l ++ '\n' :: scaleText k true t := by
+  intro b l
+  induction l generalizing b with
+  | nil => intro t _; simp [scaleText]
+  | cons c r ih =>
+    intro t h
+    have hc : c ≠ '\n' := h c (by simp)
+    have hr : ∀ ch ∈ r, ch ≠ '\n' := fun ch hch => h ch (by simp [hch])
+    simp only [List.cons_append, scaleText, hc, if_false]
+    split
+    · rw [ih true t hr, List.append_assoc]
+    · rw [ih false t hr, List.cons_append]
+
+theorem scaleText_true_unlines (k : Nat) : ∀ (ls : List Str), (∀ l ∈ ls, ∀ ch ∈ l, ch ≠ '\n') →
+    scaleText k true (unlines ls) = unlines (ls.map (scaleText k true)) := by
+  intro ls
+  induction ls with
+  | nil => intro _; rfl
+  | cons l ls ih =>
+    intro h
+    simp only [unlines, List.map_cons]
+    rw [scaleText_line k true l _ (h l (by simp)), ih (fun l' hl' => h l' (by simp [hl']))]
+
+theorem scaleText_false_noNL (k : Nat) (l : Str) (h : ∀ ch ∈ l, ch ≠ '\n') : scaleText k false l = l := by
+  have := scaleText_noNL k l [] h
+  simpa [scaleText] using this
+
+theorem scaleText_unlines (k : Nat) (ls : List Str) (h : ∀ l ∈ ls, ∀ ch ∈ l, ch ≠ '\n') :
+    scaleText k false (unlines ls) = unlines (scaleLines k ls) := by
+  cases ls with
+  | nil => rfl
+  | cons l ls =>
+    simp only [unlines, scaleLines]
+    rw [scaleText_line k false l _ (h l (by simp)), scaleText_false_noNL k l (h l (by simp)),
+      scaleText_true_unlines k ls (fun l' hl' => h l' (by simp [hl']))]
+
+/-- a line in "after a line break" mode: only a prefix of blanks changes -/
+theorem scaleText_true_line (k : Nat) : ∀ (l : Str), (∀ ch ∈ l, ch ≠ '\n') →
+    ∃ bl bl' rest, l = bl ++ rest ∧ scaleText k true l = bl' ++ rest ∧ (∀ c ∈ bl, isPyWs c = true) ∧ (∀ c ∈ bl', isPyWs c = true) := by
+  intro l
+  induction l with
+  | nil => intro _; exact ⟨[], [], [], rfl, rfl, by simp, by simp⟩
+  | cons c r ih =>
+    intro h
+    have hc : c ≠ '\n' := h c (by simp)
+    have hr : ∀ ch ∈ r, ch ≠ '\n' := fun ch hch => h ch (by simp [hch])
+    by_cases hb : c = ' ' ∨ c = '\t'
+    · obtain ⟨bl, bl', rest, h1, h2, h3, h4⟩ := ih hr
+      have hws : isPyWs c = true := by rcases hb with h | h <;> (subst h; decide)
+      refine ⟨c :: bl, List.replicate k c ++ bl', rest, by rw [h1]; rfl, ?_, ?_, ?_⟩
+      · have : scaleText k true (c :: r) = List.replicate k c ++ scaleText k true r := by
+          rcases hb with h | h <;> (subst h; simp [scaleText])
+        rw [this, h2, List.append_assoc]
+      · intro x hx
+        rcases List.mem_cons.1 hx with h | h
+        · rw [h]; exact hws
+        · exact h3 x h
+      · intro x hx
+        rcases List.mem_append.1 hx with h | h
+        · rw [(List.mem_replicate.1 h).2]; exact hws
+        · exact h4 x h
+    · have h1 : c ≠ ' ' := fun h => hb (Or.inl h)
+      have h2 : c ≠ '\t' := fun h => hb (Or.inr h)
+      refine ⟨[], [], c :: r, rfl, ?_, by simp, by simp⟩
+      have := scaleText_false_noNL k r hr
+      simp [scaleText, hc, h1, h2, this]
+
+theorem strip_scaleText_true (k : Nat) (l : Str) (h : ∀ ch ∈ l, ch ≠ '\n') : strip (scaleText k true l) = strip l := by
+  obtain ⟨bl, bl', rest, h1, h2, h3, h4⟩ := scaleText_true_line k l h
+  rw [h2]
+  conv => rhs; rw [h1]
+  unfold strip
+  rw [NumberedLines.lstrip_allws _ _ h3, NumberedLines.lstrip_allws _ _ h4]
+
+open NemoVerif.PreExpand in
+theorem scaleText_splitSpaces (k : Nat) (l : Str) :
+    scaleText k true l = List.replicate (k * (splitSpaces l).1.length) ' ' ++ scaleText k true (splitSpaces l).2 := by
+  induction l with
+  | nil => simp [splitSpaces, scaleText]
+  | cons c r ih =>
+    by_cases hc : c = ' '
+    · subst hc
+      have : scaleText k true (' ' :: r) = List.replicate k ' ' ++ scaleText k true r := by simp [scaleText]
+      rw [this, ih]
+      simp only [splitSpaces, List.length_cons, Nat.mul_succ]
+      rw [← List.append_assoc, List.replicate_append_replicate, Nat.add_comm]
+    · rw [PreExpand.splitSpaces_not_space c r hc]
+      simp
+
+open NemoVerif.PreExpand in
+theorem splitSpaces_replicate (m : Nat) (X : Str) (hX : X.head? ≠ some ' ') :
+    splitSpaces (List.replicate m ' ' ++ X) = (List.replicate m ' ', X) := by
+  induction m with
+  | zero =>
+    cases X with
+    | nil => rfl
+    | cons c r =>
+      have : c ≠ ' ' := by intro h; apply hX; simp [h]
+      simpa using PreExpand.splitSpaces_not_space c r this
+  | succ m ih => simp [List.replicate_succ, splitSpaces, ih]
+
+/-- the part of a line after its leading spaces, in "after a line break" mode: unchanged unless it begins with a tab -/
+theorem scaleText_true_nonspace (k : Nat) (hk : 1 ≤ k) (r : Str) (hr : ∀ ch ∈ r, ch ≠ '\n') (h : r.head? ≠ some ' ') :
+    (scaleText k true r).head? ≠ some ' ' ∧ PreExpand.dropDots 3 (scaleText k true r) = PreExpand.dropDots 3 r := by
+  cases r with
+  | nil => simp [scaleText]
+  | cons c r' =>
+    have hc : c ≠ ' ' := by intro h'; apply h; simp [h']
+    have hnl : c ≠ '\n' := hr c (by simp)
+    have hr' : ∀ ch ∈ r', ch ≠ '\n' := fun ch hch => hr ch (by simp [hch])
+    by_cases ht : c = '\t'
+    · subst ht
+      have : scaleText k true ('\t' :: r') = List.replicate k '\t' ++ scaleText k true r' := by simp [scaleText]
+      obtain ⟨k', rfl⟩ : ∃ k', k = k' + 1 := ⟨k - 1, by omega⟩
+      rw [this]
+      simp [List.replicate_succ, PreExpand.dropDots]
+    · have : scaleText k true (c :: r') = c :: r' := by
+        have h2 := scaleText_false_noNL k r' hr'
+        simp [scaleText, hnl, hc, ht, h2]
+      rw [this]
+      exact ⟨h, rfl⟩
+
+open NemoVerif.PreExpand in
+theorem splitSpaces_snd_head (l : Str) : (splitSpaces l).2.head? ≠ some ' ' := by
+  induction l with
+  | nil => simp [splitSpaces]
+  | cons c r ih =>
+    by_cases hc : c = ' '
+    · subst hc; simpa [splitSpaces] using ih
+    · rw [PreExpand.splitSpaces_not_space c r hc]; simp [hc]
+
+open NemoVerif.PreExpand in
+theorem matchDots_scale (k : Nat) (hk : 1 ≤ k) (l : Str) (hl : ∀ ch ∈ l, ch ≠ '\n') :
+    matchDots (scaleText k true l) = (matchDots l).map (fun p => (List.replicate (k * p.1.length) ' ', p.2)) := by
+  have hr : ∀ ch ∈ (splitSpaces l).2, ch ≠ '\n' := fun ch hch => hl ch (PreExpand.splitSpaces_snd_mem l ch hch)
+  obtain ⟨h1, h2⟩ := scaleText_true_nonspace k hk (splitSpaces l).2 hr (splitSpaces_snd_head l)
+  unfold matchDots
+  rw [scaleText_splitSpaces k l, splitSpaces_replicate _ _ h1]
+  simp only [h2]
+  by_cases he : (splitSpaces l).1 = []
+  · simp [he]
+  · have hpos : 0 < (splitSpaces l).1.length := List.length_pos_iff.2 he
+    have hne : List.replicate (k * (splitSpaces l).1.length) ' ' ≠ [] := by
+      intro h
+      have h' := congrArg List.length h
+      simp only [List.length_replicate, List.length_nil] at h'
+      have : 0 < k * (splitSpaces l).1.length := Nat.mul_pos (by omega) hpos
+      omega
+    simp only [List.isEmpty_iff, he, hne, if_false]
+    cases dropDots 3 (splitSpaces l).2 <;> simp
+
+theorem scaleText_true_id (k : Nat) (r : Str) (hr : ∀ ch ∈ r, ch ≠ '\n') (h1 : r.head? ≠ some ' ') (h2 : r.head? ≠ some '\t') :
+    scaleText k true r = r := by
+  cases r with
+  | nil => rfl
+  | cons c r' =>
+    have hc : c ≠ ' ' := by intro h'; apply h1; simp [h']
+    have ht : c ≠ '\t' := by intro h'; apply h2; simp [h']
+    have hnl : c ≠ '\n' := hr c (by simp)
+    have h3 := scaleText_false_noNL k r' (fun ch hch => hr ch (by simp [hch]))
+    simp [scaleText, hnl, hc, ht, h3]
+
+open NemoVerif.PreExpand in
+theorem splitSpaces_fst_replicate (l : Str) : (splitSpaces l).1 = List.replicate (splitSpaces l).1.length ' ' := by
+  induction l with
+  | nil => simp [splitSpaces]
+  | cons c r ih =>
+    by_cases hc : c = ' '
+    · subst hc
+      simp only [splitSpaces, List.length_cons, List.replicate_succ]
+      rw [← ih]
+    · rw [PreExpand.splitSpaces_not_space c r hc]; rfl
+
+/-- spaces followed by a text that begins with neither a blank nor contains a line break -/
+theorem scaleText_true_spaces (k n : Nat) (e : Str) (he : ∀ ch ∈ e, ch ≠ '\n') (h1 : e.head? ≠ some ' ') (h2 : e.head? ≠ some '\t') :
+    scaleText k true (List.replicate n ' ' ++ e) = List.replicate (k * n) ' ' ++ e := by
+  rw [scaleText_splitSpaces, splitSpaces_replicate n e h1]
+  simp [scaleText_true_id k e he h1 h2]
+
+open NemoVerif.PreExpand in
+theorem matchDots_parts (l : Str) (sp rest : Str) (h : matchDots l = some (sp, rest)) :
+    sp = List.replicate sp.length ' ' ∧ ∀ ch ∈ rest, ch ∈ l := by
+  unfold matchDots at h
+  split at h
+  · cases h
+  · cases hd : dropDots 3 (splitSpaces l).2 with
+    | none => simp [hd] at h
+    | some r =>
+      simp [hd] at h
+      obtain ⟨h1, h2⟩ := h
+      subst h1; subst h2
+      refine ⟨splitSpaces_fst_replicate l, ?_⟩
+      intro ch hch
+      apply PreExpand.splitSpaces_snd_mem l ch
+      -- rest is a suffix of the part after the spaces
+      have : ∀ (n : Nat) (x y : Str), dropDots n x = some y → ∀ c ∈ y, c ∈ x := by
+        intro n
+        induction n with
+        | zero => intro x y hxy c hc; simp [dropDots] at hxy; subst hxy; exact hc
+        | succ n ih =>
+          intro x y hxy c hc
+          cases x with
+          | nil => simp [dropDots] at hxy
+          | cons a x' =>
+            by_cases ha : a = '.'
+            · subst ha
+              simp only [dropDots] at hxy
+              exact List.mem_cons_of_mem _ (ih x' y hxy c hc)
+            · rw [PreExpand.dropDots_succ_ne n a x' ha] at hxy; cases hxy
+      exact this 3 _ _ hd ch hch
+
+open NemoVerif.PreExpand in
+theorem subLine_scale (k : Nat) (hk : 1 ≤ k) (hx : ExpansionOK) (l : Str) (hl : ScaleLineOK l) :
+    subLine (scaleText k true l) = (subLine l).map (scaleText k true) := by
+  unfold subLine
+  rw [matchDots_scale k hk l hl.1]
+  cases hm : matchDots l with
+  | none => simp
+  | some p =>
+    obtain ⟨sp, rest⟩ := p
+    obtain ⟨hsp, hrest⟩ := matchDots_parts l sp rest hm
+    obtain ⟨hr1, hr2⟩ := hl.2 sp rest hm
+    have hrnl : ∀ ch ∈ rest, ch ≠ '\n' := fun ch hch => hl.1 ch (hrest ch hch)
+    simp only [Option.map_some, List.map_cons, List.map_append, List.map_map, List.map_nil]
+    rw [scaleText_true_id k rest hrnl hr1 hr2]
+    congr 1
+    · congr 1
+      apply List.map_congr_left
+      intro e he
+      obtain ⟨e1, e2, e3⟩ := hx e he
+      simp only [Function.comp]
+      rw [hsp, scaleText_true_spaces k sp.length e e1 e2 e3]
+      simp
+
+open NemoVerif.PreExpand in
+theorem step_scale (k : Nat) (hk : 1 ≤ k) (hx : ExpansionOK) (d : Bool) (l : Str) (hl : ScaleLineOK l) :
+    step d (scaleText k true l) = ((step d l).1, (step d l).2.map (scaleText k true)) := by
+  unfold step
+  rw [strip_scaleText_true k l hl.1]
+  unfold stepS
+  split
+  · rfl
+  · split
+    · rfl
+    · split
+      · rfl
+      · split
+        · rfl
+        · simp only [subLine_scale k hk hx l hl]
+
+open NemoVerif.PreExpand in
+theorem run_scale (k : Nat) (hk : 1 ≤ k) (hx : ExpansionOK) (ls : List Str) (h : ∀ l ∈ ls, ScaleLineOK l) : ∀ d,
+    run d (ls.map (scaleText k true)) = (run d ls).map (scaleText k true) := by
+  induction ls with
+  | nil => intro d; rfl
+  | cons l ls ih =>
+    intro d
+    simp only [List.map_cons, run, step_scale k hk hx d l (h l (by simp)), List.map_append]
+    rw [ih (fun l' hl' => h l' (by simp [hl']))]
+
+open NemoVerif.PreExpand in
+theorem subLine_noNL (hx : ExpansionOK) (l : Str) (hl : ∀ ch ∈ l, ch ≠ '\n') : ∀ x ∈ subLine l, ∀ ch ∈ x, ch ≠ '\n' := by
+  unfold subLine
+  cases hm : matchDots l with
+  | none => intro x hxm; simp at hxm; subst hxm; exact hl
+  | some p =>
+    obtain ⟨sp, rest⟩ := p
+    obtain ⟨hsp, hrest⟩ := matchDots_parts l sp rest hm
+    intro x hxm ch hch
+    simp only [List.cons_append, List.mem_cons, List.mem_append, List.mem_map, List.mem_singleton] at hxm
+    rcases hxm with h | ⟨e, he, h⟩ | h
+    · subst h; simp at hch
+    · subst h
+      rcases List.mem_append.1 hch with h' | h'
+      · rw [hsp] at h'; rw [(List.mem_replicate.1 h').2]; decide
+      · exact (hx e he).1 ch h'
+    · rcases h with h | h
+      · subst h; exact hl ch (hrest ch hch)
+      · simp at h
+
+open NemoVerif.PreExpand in
+theorem step_noNL (hx : ExpansionOK) (d : Bool) (l : Str) (hl : ∀ ch ∈ l, ch ≠ '\n') : ∀ x ∈ (step d l).2, ∀ ch ∈ x, ch ≠ '\n' := by
+  unfold step stepS
+  split
+  · intro x hxm; simp at hxm; subst hxm; exact hl
+  · split
+    · intro x hxm; simp at hxm; subst hxm; exact hl
+    · split
+      · intro x hxm; simp at hxm; subst hxm; exact hl
+      · split
+        · intro x hxm; simp at hxm; subst hxm; exact hl
+        · exact subLine_noNL hx l hl
+
+open NemoVerif.PreExpand in
+theorem run_noNL (hx : ExpansionOK) (ls : List Str) (h : ∀ l ∈ ls, ∀ ch ∈ l, ch ≠ '\n') : ∀ d, ∀ x ∈ run d ls, ∀ ch ∈ x, ch ≠ '\n' := by
+  induction ls with
+  | nil => intro d x hxm; simp [run] at hxm
+  | cons l ls ih =>
+    intro d x hxm
+    simp only [run, List.mem_append] at hxm
+    rcases hxm with h1 | h1
+    · exact step_noNL hx d l (h l (by simp)) x h1
+    · exact ih (fun l' hl' => h l' (by simp [hl'])) _ x h1
+
+open NemoVerif.PreExpand in
+theorem step_snd_of_noDots (d : Bool) (l : Str) (h : matchDots l = none) : (step d l).2 = [l] := by
+  unfold step stepS
+  split
+  · rfl
+  · split
+    · rfl
+    · split
+      · rfl
+      · split
+        · rfl
+        · simp [subLine, h]
 
 end NemoVerif.TextLayout
